@@ -70,6 +70,7 @@ class Design:
     self.next_id = 0
     self.explicit = []                        # (block id a, block id b): U(a) < U(b), same component
     self.full_struct = set()                  # struct-typed signals whose whole value is available
+    self.vi = {}                              # id(mux chain) -> (chain, python text): reads of a list element chosen by a signal
 
   # ------------------------------------------------------------------ construction helpers
   def new_sig(self, comp, name, width, kind, stype=None):
@@ -124,8 +125,50 @@ class Design:
     return out
 
   # ------------------------------------------------------------------ expressions
+  def gen_var_index(self, w, readable):
+    """`s.wl[s.sel]`, `s.wl[s.sel].f`, `s.wl[s.sel][a:b]`: an element of a list of signals selected by a 1- or 2-bit signal.
+    Model side: a mux chain over the elements.  Only lists all of whose elements are completely available are used (the
+    implementation records a read of every element), and only whole signals / struct fields as index (an attribute)."""
+    rng = self.rng
+    lists = {}
+    for sg in self.sigs:
+      mm = re.match(r'(\w+)\[(\d+)\]$', sg.name)
+      if mm and sg.comp == '': lists.setdefault(mm.group(1), []).append(sg)
+    whole = lambda sg: all((sg.idx, l, h - l) in self.avail for (l, h) in self.leaf_bounds(sg))
+    lists = {b: sorted(v, key=lambda x: int(re.search(r'\[(\d+)\]$', x.name).group(1))) for b, v in lists.items()}
+    lists = {b: v for b, v in lists.items() if len(v) >= 2 and all(whole(x) for x in v) and all(x in [self.sigs[r[0]] for r in readable] for x in v)}
+    if not lists: return None
+    base = rng.choice(sorted(lists))
+    elems = lists[base]
+    # piece of an element: a leaf field (or the whole Bits signal), possibly narrowed to w bits
+    e0 = elems[0]
+    pieces = [(l, h - l) for (l, h) in self.leaf_bounds(e0) if h - l >= w]
+    if not pieces: return None
+    lo, ww = rng.choice(pieces)
+    off = rng.choice([0, ww - w, rng.randint(0, ww - w)])
+    rngk = (lo + off, w)
+    # index: a whole 1-bit (or, for >= 4 elements, 2-bit) signal or struct leaf field that is readable
+    nb = 2 if len(elems) >= 4 and rng.random() < 0.6 else 1
+    sels = []
+    for (g, l, x) in readable:
+      sg = self.sigs[g]
+      if x != nb or sg in elems or sg.name == 'reset': continue
+      if (l, l + x) in self.leaf_bounds(sg): sels.append((g, l, x))
+    if not sels: return None
+    sel = rng.choice(sels)
+    n = min(len(elems), 1 << nb)
+    chain = ('r', elems[n - 1].idx) + rngk
+    for k in range(n - 2, -1, -1):
+      chain = ('m', ('b', 'eq', nb, ('r',) + sel, ('c', nb, k)), ('r', elems[k].idx) + rngk, chain)
+    txt = self.ref('', (e0.idx,) + rngk).replace(f's.{base}[0]', f's.{base}[{self.ref("", sel)}]', 1)
+    self.vi[id(chain)] = (chain, txt)
+    return chain
+
   def gen_leaf(self, w, readable):
     rng = self.rng
+    if rng.random() < 0.2:
+      e = self.gen_var_index(w, readable)
+      if e is not None: return e
     cands = [r for r in readable if r[2] >= w]
     if cands and rng.random() < 0.8:
       g, lo, ww = rng.choice(cands)
@@ -218,6 +261,7 @@ class Design:
 
   def py_expr(self, comp, e):
     k = e[0]
+    if id(e) in self.vi and self.vi[id(e)][0] is e and comp == '': return self.vi[id(e)][1]
     if k == 'c': return f'Bits{e[1]}({e[2]})'
     if k == 'r': return self.ref(comp, e[1:])
     if k == 'n': return f'(~{self.py_expr(comp, e[2])})'
@@ -320,7 +364,11 @@ def generate(rng, max_blocks=8, with_children=True, with_regs=True, wide=False, 
     for i in range(rng.randint(8, 12)): d.new_sig('', f'r{i}', W(), 'wire')
   if rng.random() < 0.4:      # a list of wires / out ports: s.wl = [Wire(..) for _ in range(k)]
     lw, lst, kind = W(), ST(), rng.choice(['wire', 'wire', 'out'])
-    for i in range(rng.randint(2, 3)): d.new_sig('', f'{"wl" if kind == "wire" else "ol"}[{i}]', lw, kind, lst)
+    for i in range(rng.choice([2, 3, 3, 4])): d.new_sig('', f'{"wl" if kind == "wire" else "ol"}[{i}]', lw, kind, lst)
+  if rng.random() < 0.45:     # a list of in ports and a narrow index port: s.il[s.isel], s.il[s.isel].f, s.il[s.isel][a:b]
+    lw, lst, k = W(), ST(), rng.choice([2, 3, 4, 4])
+    for i in range(k): d.new_sig('', f'il[{i}]', lw, 'in', lst)
+    d.new_sig('', 'isel', 2 if (k == 4 and rng.random() < 0.6) else 1, 'in')
   children = []
   if with_children and rng.random() < 0.6:
     for c in range(rng.randint(1, 2)):
@@ -529,7 +577,7 @@ def quiet_dump_dag():
 
 class RealSim:
   """one elaborated + scheduled instance of a generated design"""
-  def __init__(self, cls, d, flow, comb_order=None, ff_order=None):
+  def __init__(self, cls, d, flow, comb_order=None, ff_order=None, rah=True):
     quiet_dump_dag()
     from pymtl3.passes.PassGroups import DefaultPassGroup
     from pymtl3.passes.sim.GenDAGPass import GenDAGPass
@@ -542,10 +590,11 @@ class RealSim:
     self.top = top = cls()
     top.elaborate()
     self.flow = flow
-    if flow == 'default': top.apply(DefaultPassGroup())
-    elif flow == 'heutopo': top.apply(HeuTopoUnrollSim(print_line_trace=False))
-    elif flow == 'mamba': top.apply(Mamba2020(print_line_trace=False))
-    elif flow == 'unroll': top.apply(UnrollSim(print_line_trace=False))
+    # rah: the reset_active_high option of every pass group (polarity driven by sim_reset())
+    if flow == 'default': top.apply(DefaultPassGroup(reset_active_high=rah))
+    elif flow == 'heutopo': top.apply(HeuTopoUnrollSim(print_line_trace=False, reset_active_high=rah))
+    elif flow == 'mamba': top.apply(Mamba2020(print_line_trace=False, reset_active_high=rah))
+    elif flow == 'unroll': top.apply(UnrollSim(print_line_trace=False, reset_active_high=rah))
     elif flow in ('simple', 'simple-unroll'):
       GenDAGPass()(top); WrapGreenletPass()(top); SimpleSchedulePass()(top)
       self.index_blocks()
@@ -553,7 +602,7 @@ class RealSim:
         top._sched.update_schedule = [self.id2blk[i] for i in comb_order] + self.extra_blocks()
       if ff_order is not None:
         top._sched.schedule_ff = [self.id2blk[i] for i in ff_order]
-      (PrepareSimPass if flow == 'simple' else UnrollSimPass)(print_line_trace=False)(top)
+      (PrepareSimPass if flow == 'simple' else UnrollSimPass)(print_line_trace=False, reset_active_high=rah)(top)
     else: raise ValueError(flow)
     self.index_blocks()
 
@@ -720,7 +769,9 @@ class RefSim:
   def eval_comb(self):
     # nets may have been created before their writer was driven by a later block only through exact-object
     # chaining; iterate to a fixed point (acyclic designs: at most len(comb) sweeps)
-    for _ in range(len(self.comb) + 1):
+    # (false loops through slices / struct fields: one sweep per assignment of the longest bit-level chain)
+    nasg = sum(len(x['asgs']) if kind == 'blk' else len(x['readers']) for _, kind, x in self.comb)
+    for _ in range(nasg + 2):
       before = list(self.vals)
       for _, kind, x in self.comb:
         if kind == 'blk':
@@ -887,7 +938,18 @@ def parse_scc(rs, fn):
         elif full in bypath:
           watch.append((bypath[full].idx, 0, bypath[full].width))
         else:
-          raise leanio.InfraError(f'cannot map watched variable {full!r} of {fn.__name__}')
+          # a field (possibly nested, possibly sliced) of a struct-typed signal: `n.f0`, `w.inner.p1[0:2]`
+          hit = None
+          for sp, s_ in bypath.items():
+            if s_.stype is not None and full.startswith(sp + '.'):
+              rest = full[len(sp) + 1:]
+              ms = re.match(r'(.*)\[(\d+):(\d+)\]$', rest)
+              fld = ms.group(1) if ms else rest
+              for (p_, lo, ww, _) in s_.stype.named():
+                if p_ == fld:
+                  hit = (s_.idx, lo + int(ms.group(2)), int(ms.group(3)) - int(ms.group(2))) if ms else (s_.idx, lo, ww)
+          if hit is None: raise leanio.InfraError(f'cannot map watched variable {full!r} of {fn.__name__}')
+          watch.append(hit)
   return ids, watch
 
 def model_entries(rs):
@@ -927,18 +989,27 @@ def replay_source(ck, case):
   from pymtl3.passes.PassGroups import DefaultPassGroup
   from pymtl3.passes.mamba.PassGroups import HeuTopoUnrollSim, Mamba2020, UnrollSim
   traces, bad = {}, 0
-  for flow, grp in [('default', DefaultPassGroup), ('heutopo', lambda: HeuTopoUnrollSim(print_line_trace=False)),
-                    ('mamba', lambda: Mamba2020(print_line_trace=False)), ('unroll', lambda: UnrollSim(print_line_trace=False))]:
+  # a case of the reset stream: the recorded polarity option is given to every pass group and the first input vector is
+  # followed by sim_reset() instead of an ordinary cycle
+  has_rah = case.get('reset_active_high') is not None
+  rah = bool(case.get('reset_active_high', True))
+  for flow, grp in [('default', lambda: DefaultPassGroup(reset_active_high=rah)), ('heutopo', lambda: HeuTopoUnrollSim(print_line_trace=False, reset_active_high=rah)),
+                    ('mamba', lambda: Mamba2020(print_line_trace=False, reset_active_high=rah)), ('unroll', lambda: UnrollSim(print_line_trace=False, reset_active_high=rah))]:
     try:
       top = cls(); top.elaborate(); top.apply(grp())
       tr = []
-      for cyc in inputs:
+      for ci, cyc in enumerate(inputs):
+        if has_rah and ci == 0:
+          for g, v in cyc:
+            cur = resolve_path(top, sigs[g])
+            if hasattr(type(cur), 'from_bits') and not isinstance(cur, Bits): v = type(cur).from_bits(Bits(cur.nbits, v))
+            cur @= v
+          top.sim_reset()
+          st = [int(resolve_path(top, sp).to_bits()) for sp in (sigs or [])]
+          tr.append((st, st)); continue
         for g, v in cyc:
           if sigs is None: continue
-          obj = top
-          parts = sigs[g].split('.')
-          for p_ in parts[:-1]: obj = getattr(obj, p_)
-          cur = getattr(obj, parts[-1])
+          cur = resolve_path(top, sigs[g])
           if hasattr(type(cur), 'from_bits') and not isinstance(cur, Bits):
             v = type(cur).from_bits(Bits(cur.nbits, v))
           cur @= v
@@ -946,9 +1017,7 @@ def replay_source(ck, case):
         def snap():
           out = []
           for sp in (sigs or []):
-            o = top
-            for p_ in sp.split('.'): o = getattr(o, p_)
-            out.append(int(o.to_bits()))
+            out.append(int(resolve_path(top, sp).to_bits()))
           return out
         a = snap()
         for blk in [b for b in top._dag.final_upblks if b not in top.get_all_update_ff()]:
